@@ -1,4 +1,5 @@
 import LeptosModel.Gen.ErrorKinds
+import LeptosModel.Gen.ServerFnPath
 import LeptosModel.Model.Wire
 import LeptosModel.Model.Url
 /-!
@@ -46,6 +47,15 @@ Each function mirrors the Rust code named next to it (all paths relative to /rep
                         `ServerFnErrorWrapper(E::de(bytes))`, which a transport prints with `Display` = `ser()`),
                         `FromRes<StreamingText>` (`decode_text_chunks`: an `Err` chunk ↦ `E::de(bytes)`, the pending
                         tail is kept) and `FromRes<Streaming>` (chunks handed over as they are).
+* `serverFnPath`      — `ServerFnCall::server_fn_url` (server_fn_macro/src/lib.rs): `ServerFn::PATH`, assembled from the
+                        *extracted* component lists of `Gen.ServerFnPath` (with / without `endpoint`, default prefix).
+* `runServerFull`, `formLocation`, `runOnServerForm` — `ServerFn::run_on_server` with feature `form-redirects` for a
+                        request that accepts `text/html` (a plain `<form>`): an `Err` is appended to the `Referer`
+                        with `to_url` (left alone when that fails), an `Ok` strips stale error info from it;
+                        `Res::redirect` sets status 302 and `Location` (`"/"` without `Referer`).
+* `Middleware`, `applyLayers`, `mwBlock`, `remoteCallMw` — `middleware::{Layer, Service, BoxedService}` as the
+                        integrations compose them (`service = layer.layer(service)` in the order of `middlewares()`);
+                        a layer may answer itself through the `ser` hook (`error_response(path, ser(MiddlewareError))`).
 * `inputEncodingsOld`, `textStreamItemsOld` — the code before the repairs `fix: PatchUrl and PutUrl read their
                         arguments from the request body` (F-C13-1) and `fix: StreamingText completes a character
                         split across transport chunks` (F-C13-2); kept for the regression witnesses.
@@ -544,6 +554,99 @@ def runClient {E α β : Type} (ie : InEnc) (ec : ErrCodec E) (ci : Codec α) (c
 def remoteCall {E α β : Type} (ie : InEnc) (ec : ErrCodec E) (ci : Codec α) (co : Codec β)
     (body : α → Except E β) (a : α) : Except E β :=
   runClient ie ec ci co (dispatch ie (runServer ie ec ci co body)) a
+
+/-! ### the registered path -/
+
+def trimLead (c : Char) : Str → Str
+  | [] => []
+  | x :: xs => if x = c then trimLead c xs else x :: xs
+
+structure PathEnv where
+  pfx : Str
+  fnPath : Str
+  fnName : Str
+  hash : Str
+
+/-- one argument of `concatcp!`: a literal or a named component -/
+def pathPart (env : PathEnv) (part : Bool × Str) : Str :=
+  if part.1 then part.2
+  else if part.2 = "prefix".toList then env.pfx
+  else if part.2 = "mod_path".toList then []
+  else if part.2 = "fn_path".toList then env.fnPath
+  else if part.2 = "fn_name_as_str".toList then env.fnName
+  else if part.2 = "hash".toList then env.hash
+  else []
+
+/-- `ServerFn::PATH` for `#[server(prefix = .., endpoint = ..)] fn name`; `hash` is the decimal text of the
+xxh64 of the crate directory and module path -/
+def serverFnPath (pfx endpoint : Option Str) (fnName hash : Str) : Str :=
+  let pre := pfx.getD Gen.ServerFnPath.defaultPrefix
+  match endpoint with
+  | some e =>
+    let env : PathEnv := ⟨pre, Gen.ServerFnPath.endpointLead ++ trimLead Gen.ServerFnPath.endpointTrim e, fnName, hash⟩
+    Gen.ServerFnPath.withEndpoint.flatMap (pathPart env)
+  | none =>
+    Gen.ServerFnPath.withoutEndpoint.flatMap (pathPart ⟨pre, [], fnName, hash⟩)
+
+/-! ### the non-JS `<form>` fallback (`form-redirects`) -/
+
+/-- `run_server` keeping the error apart, as `run_on_server` does -/
+def runServerFull {E α β : Type} (ie : InEnc) (ec : ErrCodec E) (ci : Codec α) (co : Codec β)
+    (body : α → Except E β) (req : Req) : Res × Option E :=
+  match serverInput ie ec ci req with
+  | .error e => (errorResponse ec e, some e)
+  | .ok a =>
+    match body a with
+    | .error e => (errorResponse ec e, some e)
+    | .ok o =>
+      match co.enc o with
+      | .error m => (errorResponse ec (ec.fromSfe serializationKind m), some (ec.fromSfe serializationKind m))
+      | .ok b => (⟨200, b⟩, none)
+
+structure FormRes where
+  status : Nat
+  location : Bytes
+  body : Bytes
+  deriving DecidableEq, Repr
+
+/-- the `Location` of the redirect: `errSer` is `e.ser()` of the error, if there was one -/
+def formLocation (path : Bytes) (referer : Option Bytes) (errSer : Option Bytes) : Bytes :=
+  match errSer with
+  | some es =>
+    match toUrl (referer.getD [47]) path es with
+    | some u => u
+    | none => referer.getD [47]
+  | none =>
+    match referer with
+    | some r => stripErrorInfo r
+    | none => [47]
+
+def runOnServerForm {E α β : Type} (ie : InEnc) (ec : ErrCodec E) (ci : Codec α) (co : Codec β)
+    (body : α → Except E β) (path : Bytes) (referer : Option Bytes) (req : Req) : FormRes :=
+  let (res, err) := runServerFull ie ec ci co body req
+  ⟨302, formLocation path referer (err.map ec.ser), res.body⟩
+
+/-! ### middleware -/
+
+/-- a layer wraps the service below it -/
+abbrev Middleware := (Req → Res) → Req → Res
+
+/-- `for layer in middlewares() { service = layer.layer(service) }` -/
+def applyLayers (layers : List Middleware) (handler : Req → Res) : Req → Res :=
+  layers.foldl (fun acc l => l acc) handler
+
+def middlewareKind : Str := "MiddlewareError".toList
+
+/-- a layer that answers itself through the `ser` hook when `pred` holds -/
+def mwBlock {E : Type} (ec : ErrCodec E) (pred : Req → Bool) (msg : Str) : Middleware :=
+  fun inner req => if pred req then errorResponse ec (ec.fromSfe middlewareKind msg) else inner req
+
+def remoteCallMw {E α β : Type} (ie : InEnc) (ec : ErrCodec E) (ci : Codec α) (co : Codec β)
+    (layers : List Middleware) (body : α → Except E β) (a : α) : Except E β :=
+  runClient ie ec ci co (dispatch ie (applyLayers layers (runServer ie ec ci co body))) a
+
+/-- no arguments: the unit codec (serde_qs / serde_json / ciborium of a field-less struct) -/
+def unitCodec : Codec Unit := ⟨fun _ => .ok [], fun _ => .ok ()⟩
 
 /-! ### concrete codecs used by the driver -/
 
